@@ -51,3 +51,61 @@ Proof.
   assert (Hkd : Z.of_nat k <= dep s t) by (unfold dep in *; lia).
   pose proof (Hmax _ k i Hk eq_refl Hkd ltac:(lia)) as Hle. lia.
 Qed.
+
+(** ** one applyBlock on top of the only applied chain never aborts *)
+Lemma applyBlock_alone_gen : forall base s cur x b,
+    alone s cur -> ginv base s ->
+    bfind (blocks _ _ s) x = Some b -> b_par _ b = cur -> x <> root _ _ s -> is_failed _ b = false ->
+    on_active_chain pstate ccmd s x = false ->
+    exists s' ok, c_applyBlock s x = Ok (s', ok) /\ ginv base s' /\ frame s s' /\
+                  (ok = true -> alone s' x) /\ (ok = false -> alone s' cur).
+Proof.
+  intros base s cur x b A G Fb Hp Hxr Hnf Hoac. pose proof G as (WI & C & T). pose proof WI as (_ & K).
+  pose proof (proj1 (alone_unfold _ _) A) as (W & Ta & Hn).
+  destruct (is_act_find _ _ Ta) as (pb & Fpb & Apb).
+  pose proof (find_cfind _ _ _ Fb) as Cb.
+  pose proof (wf_parent_height _ _ _ W Cb Hxr) as Hph. change (e_par (core b)) with (b_par ccmd b) in Hph. rewrite Hp in Hph.
+  assert (Hina : b_act ccmd b = false).
+  { destruct (b_act ccmd b) eqn:Ab; [|reflexivity]. exfalso.
+    assert (is_act (cores s) x) by (exists (core b); split; [exact Cb|exact Ab]). pose proof (alone_active _ _ _ A H). lia. }
+  pose proof (no_active_child s cur x A Hxr ltac:(lia)) as Hnc.
+  assert (Hfc : b_fc ccmd b = false) by (unfold is_failed in Hnf; apply orb_false_iff in Hnf; apply Hnf).
+  assert (Hfp : b_fp ccmd b = false).
+  { unfold is_failed in Hnf. apply orb_false_iff in Hnf. destruct Hnf as [Hnf _]. apply orb_false_iff in Hnf. apply Hnf. }
+  assert (Hl2 : N.ltb (b_lvl ccmd b) L_CONNECTED = false).
+  { apply N.ltb_ge. destruct K as (_ & _ & _ & _ & _ & C5). exact (C5 _ _ Fb). }
+  assert (Hpl : N.le L_MAYBE (b_lvl ccmd pb)).
+  { destruct K as (_ & _ & _ & _ & C3 & _). rewrite <- Hp in Fpb. exact (proj2 (C3 _ _ Fpb Apb)). }
+  assert (E : exists s' ok, c_applyBlock s x = Ok (s', ok)).
+  { unfold c_applyBlock, applyBlock. rewrite Fb. pose proof Hxr as Hxr'. apply N.eqb_neq in Hxr'. rewrite Hxr'. rewrite Hp, Fpb, Apb. cbn [negb].
+    rewrite Hina, Hnc, Hfc, Hnf, Hl2.
+    destruct (gsexec pstate ccmd cexec cunexec [] (b_gs ccmd b) (pst pstate ccmd s)) as [p' okg] eqn:Eg.
+    destruct okg; cbn [negb].
+    - match goal with |- context [N.ltb (b_lvl ccmd b) ?u && N.ltb (b_lvl ccmd pb) ?u] => assert (Hu : N.ltb (b_lvl ccmd b) u && N.ltb (b_lvl ccmd pb) u = false) end.
+      { destruct (valid_upto ccmd pb L_FULL) eqn:Vp; cbn [andb].
+        - destruct (Z.eqb (b_h ccmd b) _).
+          + apply andb_false_iff. right. apply N.ltb_ge. unfold valid_upto in Vp. apply andb_prop in Vp. apply N.leb_le. apply Vp.
+          + apply andb_false_iff. right. apply N.ltb_ge. exact Hpl.
+        - apply andb_false_iff. right. apply N.ltb_ge. exact Hpl. }
+      rewrite Hu. eexists. eexists. reflexivity.
+    - unfold invalidate_pop. cbn [blocks with_pst]. rewrite Fb, Hfp, Hnf.
+      match goal with |- context [on_active_chain pstate ccmd ?S x] => replace (on_active_chain pstate ccmd S x) with false by (symmetry; exact Hoac) end.
+      destruct (N.eqb (b_lvl ccmd b) L_FULL) eqn:El.
+      + exfalso. apply N.eqb_eq in El.
+        destruct (groups_succeed base s cur x b A C T Fb Hp Hxr ltac:(lia)) as (p'' & Eg'). rewrite Eg in Eg'. discriminate.
+      + cbn [bind]. eexists. eexists. reflexivity. }
+  destruct E as (s' & ok & E). exists s', ok. split; [exact E|]. split; [eapply ginv_apply; eassumption|].
+  destruct ok.
+  - destruct (apply_ok_core _ _ _ W E) as (W1 & C1 & N1 & R1 & T1 & (e0 & He0 & _)).
+    assert (S1 : same_static (cores s) (cores s')) by (rewrite C1; apply same_static_cupd).
+    pose proof (fun j => hgt_static _ _ j S1) as HS.
+    split; [constructor; assumption|]. split; [|discriminate]. intros _.
+    apply alone_unfold. split; [exact W1|]. split.
+    + rewrite C1. exists (setact x true e0). rewrite cfind_cupd', He0. split; [reflexivity|].
+      unfold setact. apply cfind_some in He0. destruct He0 as [Hid _]. rewrite Hid, N.eqb_refl. reflexivity.
+    + rewrite N1, R1, ?HS. lia.
+  - destruct (apply_fail_core _ _ _ E) as (C1 & N1 & R1 & T1).
+    assert (W1 : wf s') by (unfold wf; rewrite C1, R1, N1; exact W).
+    split; [constructor; [exact W1|rewrite C1; apply same_static_refl|exact R1|exact T1]|]. split; [discriminate|]. intros _.
+    apply alone_unfold. split; [exact W1|]. rewrite C1, N1, R1. split; assumption.
+Qed.
